@@ -244,7 +244,7 @@ where
 
 fn exec_typed<T: Elem + Clone>(case: &Case, acc: &mut Acc) -> Result<(), String> {
     registry::reset();
-    if case.kind == Kind::Unit && case.l > 1 << 40 {
+    if case.kind == Kind::Unit && case.l > 1 << 24 {
         lat_const!(case.n, N, K, huge_unit_chunks::<N, K>(case.l, case.mutable))?;
         acc.count(true, case);
         acc.class("zero_sized_slice_longer_than_any_allocation");
